@@ -82,6 +82,7 @@ func (p *fakePipe) feed(data []byte) {
 type fakeCmd struct {
 	h      *supH
 	name   string
+	conf   *types.ProcessConfig // the live configuration of the process (follows renames)
 	alive  bool
 	exited bool
 	code   int
@@ -216,7 +217,7 @@ func (h *supH) reset(gran string, ordered bool) {
 	*h = supH{gran: gran, ordered: ordered, cfg: map[string]supCfg{}, stopCtx: map[string]*fakeCtx{}}
 	verif.Reset(true, gran == "fine")
 	app.VerifCommander = func(name string, conf *types.ProcessConfig, args []string) command.Commander {
-		return &fakeCmd{h: h, name: name}
+		return &fakeCmd{h: h, name: name, conf: conf}
 	}
 	app.VerifBackoff = func(name string, cancelled bool) time.Duration {
 		if cancelled && h.cur != nil && h.cur.Kind == "proc" {
@@ -707,7 +708,7 @@ func (h *supH) drain(emit func(string)) {
 // with a dependent and a grand-dependent (process_completed_successfully on the dependent)
 func (h *supH) directed(emit func(string)) {
 	conds := []string{"c", "s", "h", "l", "t"}
-	modes := []string{"exit3", "exitneg", "exit0", "ready-exit0", "stop-running", "stop-pending", "startfail", "baddir", "restart-running", "shutdown"}
+	modes := []string{"exit3", "exitneg", "exit0", "ready-exit0", "stop-running", "stop-pending", "startfail", "baddir", "restart-running", "shutdown", "fail-backoff-stop"}
 	for _, gran := range []string{"coarse"} {
 		for _, cond := range conds {
 			for _, mode := range modes {
@@ -733,7 +734,11 @@ func (h *supH) directed(emit func(string)) {
 					emit("proc z no 0 - 0 0 0 -")
 					adeps = "z:c"
 				}
-				emit(fmt.Sprintf("proc a no 0 %s 0 0 0 %s", aflags, adeps))
+				apol := "no"
+				if mode == "fail-backoff-stop" {
+					apol = "on_failure"
+				}
+				emit(fmt.Sprintf("proc a %s 0 %s 0 0 0 %s", apol, aflags, adeps))
 				emit(fmt.Sprintf("proc b no 0 - 0 0 0 a:%s", cond))
 				emit("proc c no 0 - 0 0 0 b:s")
 				if adeps != "-" {
@@ -767,6 +772,24 @@ func (h *supH) directed(emit func(string)) {
 					emit("s call 1 restart a")
 				case "shutdown":
 					emit("s call 1 shutdown")
+				case "fail-backoff-stop":
+					// the command fails, the process waits to be restarted, and is stopped during that wait
+					emit("s exit a 3")
+					emit("s run proc:a#1")
+					emit("s call 1 stop a")
+					for i := 0; i < 20 && !h.dead; i++ {
+						found := false
+						for _, k := range h.enabledKeys() {
+							if strings.HasPrefix(k, "api:1#") {
+								emit("s run " + k)
+								found = true
+								break
+							}
+						}
+						if !found {
+							break
+						}
+					}
 				}
 				h.drain(emit)
 				// let everything that is still alive finish
@@ -906,8 +929,78 @@ func (h *supH) directedManual(emit func(string)) {
 	}
 }
 
+// directedProbeFatal: a fatal readiness failure stops and relaunches the process; probe results
+// that arrive after the stop and before the probers are started again must not be applied.
+func (h *supH) directedProbeFatal(emit func(string)) {
+	runKey := func(prefix string, max int) {
+		for i := 0; i < max && !h.dead; i++ {
+			found := false
+			for _, k := range h.enabledKeys() {
+				if strings.HasPrefix(k, prefix) {
+					emit("s run " + k)
+					found = true
+					break
+				}
+			}
+			if !found {
+				return
+			}
+		}
+	}
+	for _, pol := range []string{"always", "on_failure", "no"} {
+		for _, first := range []string{"ok", "none"} {
+			emit("sup coarse 0")
+			emit(fmt.Sprintf("proc a %s 0 r 0 0 143 -", pol))
+			emit("proc b no 0 - 0 0 0 a:h")
+			emit("deps b a:h")
+			emit("init")
+			emit("s call 0 run")
+			h.drain(emit)
+			if first == "ok" {
+				emit("s probe a ok")
+				h.drain(emit)
+			}
+			emit("s probefatal 100 a")
+			runKey("probe:100#", 20)
+			// the process goroutine: notices the exit and (policy permitting) launches again
+			for i := 0; i < 10 && !h.dead; i++ {
+				alive := false
+				for _, n := range h.aliveNames() {
+					if n == "a" {
+						alive = true
+					}
+				}
+				if alive {
+					break
+				}
+				runKey("proc:a#", 1)
+			}
+			emit("s probe a fail")
+			emit("s probe a ok")
+			h.drain(emit)
+			emit("s probe a ok")
+			emit("s call 9 shutdown")
+			h.drain(emit)
+			for i := 0; i < 8 && !h.dead; i++ {
+				al := h.aliveNames()
+				if len(al) == 0 {
+					break
+				}
+				emit(fmt.Sprintf("s exit %s 0", al[0]))
+				h.drain(emit)
+			}
+			if len(h.aliveNames()) == 0 && len(h.enabledKeys()) == 0 {
+				emit("end quiescent")
+			} else {
+				emit("end limit")
+			}
+		}
+	}
+}
+
 func (h *supH) Gen(r *rand.Rand, tier string, emit func(string)) {
 	h.directed(emit)
+	h.directedProbeFatal(emit)
 	h.directedManual(emit)
 	h.directedExit(emit)
 	h.directedStopThenShutdown(emit)
